@@ -9,7 +9,7 @@ COQ_CORR = 'corr_C19'
 N_QUICK = 2500
 N_THOROUGH = 12000
 THOROUGH_EXHAUSTIVE = False
-VM_CASES = 52          # the first cases are also evaluated inside Coq (vm_compute); the corpus minus its last entry
+VM_CASES = 53          # the first cases are also evaluated inside Coq (vm_compute); the corpus minus its last entry
 RULE = ('cases = corpus + random rules printed from abstract token lists (literal chunks incl. digits, "-", ".", '
         'non-ASCII; values containing CR (the wildcard marker), LF, NUL, TAB; plain wildcards in the three flavours :n <n> {n}; int/float/re/path filters in bottle and dotted '
         'flavour, named and anonymous; adjacent wildcards, adjacent literals, leading/trailing literals) x paths that '
@@ -131,6 +131,10 @@ def corpus():
         mk_multi('router', [[L('p/'), W('x', 'path'), L('/e')], [L('p/'), W('y', 'path'), L('.txt')], [L('p/'), W('x', 'int')]],
                  [[0, '/p/a/b/e'], [1, '/p/a/b.txt'], [2, '/p/12'], [0, '/p/a/b/e']], fresh=True),
         mk_multi('route', [[L('a/'), W('x')], [L('a/'), W('x')]], [[0, '/a/1'], [1, '/a/2'], [0, '/a/1']]),
+        # arguments of an earlier call must not be remembered: complete call, then calls that lack a parameter
+        mk_multi('route', [[L('a/'), W('x'), L('/'), W(None, 'int')], [L('b/'), W('x')]],
+                 [[0, None, [['i', 5]], {'x': ['s', 'v']}], [0, None, [['i', 5]], {}], [1, None, [], {}],
+                  [0, None, [], {'x': ['s', 'v']}]]),
         # ---- rex selectors and a user-registered filter (implementation only)
         mk([L('a/'), ['W', 'x', 'rex', '(foo)|(bar)', 'd<', 1], L('baz')], '/a/foobaz'),
         mk([L('a/'), ['W', 'x', 'rex', '(foo)|(bar)', 'd<', 2], L('baz')], '/a/barbaz'),
@@ -306,6 +310,28 @@ def gen_args(rng, toks):
     return args, kw
 
 
+def _full_args(rng, toks):
+    args, kw = [], {}
+    for t in toks:
+        if t[0] != 'W':
+            continue
+        v = tok_value(rng, t)
+        if t[2] == 'int':
+            try:
+                val = ['i', int(v)]
+            except ValueError:
+                val = ['i', 7]
+        elif t[2] == 'float':
+            val = ['f', repr(float(v))]
+        else:
+            val = ['s', v]
+        if t[1] is None:
+            args.append(val)
+        else:
+            kw[t[1]] = val
+    return args, kw
+
+
 def mk_multi(via, rules, ops, **extra):
     c = dict(kind='multi', via=via, rules=rules, ops=ops, toks=[], rule='<%d rules>' % len(rules), path=None)
     c.update(extra)
@@ -358,6 +384,17 @@ def gen_multi(rng):
             ops.append([ri, None, a, k])
     if rng.random() < 0.6:
         ops.append(list(rng.choice(ops)))                # the same call again, after others
+    if rng.random() < 0.4:
+        # a complete call, then the same call with one argument less (on the same rule or on one with equal names)
+        ri = rng.randrange(n)
+        a, k = _full_args(rng, rules[ri])
+        ops.append([ri, None, a, k])
+        if k and rng.random() < 0.7:
+            k2 = dict(k)
+            del k2[rng.choice(sorted(k2))]
+            ops.append([ri, None, a, k2])
+        elif a:
+            ops.append([ri, None, a[:-1], k])
     return mk_multi(rng.choice(['route', 'router']), rules, ops)
 
 
@@ -899,6 +936,13 @@ def _oracle_single(case, obs):
         b = obs.get('url')
         if b and b[0] == 'ok':
             u = ''.join(chr(c) for c in b[1])
+            # a url is a function of the arguments of THIS call: nothing can be built for a wildcard that got none
+            n_anon = sum(1 for t in toks if t[0] == 'W' and t[1] is None)
+            if len(case['args']) < n_anon:
+                return 'built %r although only %d of %d positional parameters were supplied' % (u, len(case['args']), n_anon)
+            for t in toks:
+                if t[0] == 'W' and t[1] is not None and t[1] not in case['kw']:
+                    return 'built %r although parameter %r was not supplied in this call' % (u, t[1])
             if not any(t[0] == 'W' for t in toks):
                 want = ''.join(t[1] for t in toks)
                 return None if u == want else 'rule without wildcards built %r' % u
